@@ -160,7 +160,7 @@ def iterfault_run(tier):
 
 def c18_extra(tier, seed, lean):
     res = dict(corr=[], w=[], evaluations=0, cases=0, distinct=0, samples=[], info={})
-    stds = ['c++17'] if tier == 'quick' else ['c++17', 'c++20', 'c++2b']
+    stds = ['c++17', 'c++14'] if tier == 'quick' else ['c++11', 'c++14', 'c++17', 'c++20', 'c++2b']
     base = None
     for std in stds:
         for cxx in (['g++'] if tier == 'quick' else ['g++', 'clang++']):
@@ -283,6 +283,35 @@ def c17_extra(tier, seed, lean):
     res['evaluations'] = core['lines']; res['cases'] = core['cases']; res['distinct'] = core['distinct']; res['samples'] = core['samples'][:2]
     res['info'] = dict(c17_builds=[dict(compiler=a, std=b, extra=list(c)) for a, b, c in builds], c17_excluded_by_toolchain_gate=excluded,
                        c17_configs=len(cfgs), c17_disagreements=core['discount'])
+    # the noexcept contract (a compile-time observable of every program) must not depend on the standard either; the
+    # property lets only the is_always_equal-based noexcept vary (rows of always-equal, non-std allocators)
+    tstds = [('g++', 'c++11'), ('g++', 'c++14'), ('g++', 'c++17'), ('g++', 'c++20')] if tier == 'quick' else \
+        [('g++', 'c++11'), ('g++', 'c++14'), ('g++', 'c++17'), ('g++', 'c++20'), ('g++', 'c++2b'), ('clang++', 'c++11'), ('clang++', 'c++14'), ('clang++', 'c++17'), ('clang++', 'c++20')]
+    base = None
+    for cxx, std in tstds:
+        ok, why = toolchain_ok(cxx, std)
+        if not ok:
+            continue
+        rows, err = tables.noexcept_table(std, cxx)
+        if err:
+            res['corr'].append(dict(why='noexcept table (%s %s) does not compile: %s' % (cxx, std, err[-400:]), op='-', config=cxx + std, impl='', model='', case=[]))
+            continue
+        res['evaluations'] += len(rows) * len(tables.NOEXCEPT_EXPRS)
+        if base is None:
+            base = (rows, cxx, std)
+            continue
+        for r0, r1 in zip(base[0], rows):
+            if r0 != r1:
+                ae_row = bool(r0[7]) and not bool(r0[4])       # always-equal, not std::allocator
+                diff = [tables.NOEXCEPT_EXPRS[i] for i in range(len(tables.NOEXCEPT_EXPRS)) if r0[9 + i] != r1[9 + i]]
+                if ae_row:
+                    res['info'].setdefault('c17_is_always_equal_based_noexcept_differs', []).append(dict(build='%s %s' % (cxx, std), row=list(r0[:9]), exprs=diff))
+                    continue
+                res['w'].append(dict(msg='C17 noexcept (%s) of small_vector<T, %d, A> with nothrow move ctor/assign/swap = %d/%d/%d, allocator (std=%d pocma=%d pocs=%d ae=%d) is %s under %s %s but %s under %s %s'
+                                     % (', '.join(diff), r0[3], r0[0], r0[1], r0[2], r0[4], r0[5], r0[6], r0[7],
+                                        [r0[9 + tables.NOEXCEPT_EXPRS.index(d)] for d in diff], base[1], base[2], [r1[9 + tables.NOEXCEPT_EXPRS.index(d)] for d in diff], cxx, std),
+                                     op='noexcept table', config='%s %s' % (cxx, std), case=[], impl=''))
+                break
     return res
 
 
